@@ -43,7 +43,7 @@ def obligations(tier):
 
 
 MANIFEST = {
-    "text": "Partial claim. For each descriptor of the family and every id/constant value, the real parser handlers and the four real generate() methods raise nothing, and each emitted text only uses names it has already defined (JavaScript: everything called is a function, array elements are built per slot). "
+    "text": "Partial claim. The real parse()/parse_file() resolve relative imports from every directory depth and list order without an internal error (working directory restored). For each descriptor of the family and every id/constant value, the real parser handlers and the four real generate() methods raise nothing, and each emitted text only uses names it has already defined (JavaScript: everything called is a function, array elements are built per slot). "
             "Two emission-order defects are recorded as known findings (alias of a struct and struct containing a message, both with the referenced type defined in an imported file); alarms are replayed with python import, gcc and node.",
     "note": "descriptor family, textual def-before-use oracle, real toolchains on replay",
     "technique": "CrossHair symbolic execution of the real parser handlers and back ends over a bounded descriptor family (ids/constants symbolic as tokens) with a def-before-use oracle; real-toolchain replay",
